@@ -47,9 +47,20 @@ pub(crate) fn currency(code: &str) -> Rc<CurrencyInfo> {
     })
 }
 
-/// IEEE equality that identifies all NaNs and distinguishes +0.0 from -0.0.
+/// a currency record without heap strings (identity by Rc pointer only)
+pub(crate) fn currency_anon() -> Rc<CurrencyInfo> {
+    Rc::new(CurrencyInfo {
+        code: String::new(), symbol: String::new(), thousands_separator: String::new(),
+        decimal_separator: String::new(), symbol_on_left: true,
+        space_between_amount_and_symbol: false, decimal_digits: 2,
+    })
+}
+
+/// IEEE value equality that identifies all NaNs (+0.0 and -0.0 are the same value; where
+/// the sign of a zero matters the clause says so with to_bits()).  Deliberately written with
+/// float-level operations only: under the FPA theory a to_bits() costs a fresh bit-vector.
 pub(crate) fn same_f64(a: f64, b: f64) -> bool {
-    (a.is_nan() && b.is_nan()) || a.to_bits() == b.to_bits()
+    (a.is_nan() && b.is_nan()) || a == b
 }
 
 /// Spec of guarded division (property C02: "division by zero yields 0"): the IEEE
@@ -70,4 +81,42 @@ pub(crate) fn spec_binop(k: u8, l: f64, r: f64) -> f64 {
 
 pub(crate) fn number_type_of(k: u8) -> NumberType {
     match k { 0 => NumberType::Decimal, 1 => NumberType::Octal, 2 => NumberType::Hexadecimal, 3 => NumberType::Binary, _ => NumberType::Raw }
+}
+
+// ---- modular treatment of the callee `do_divition` -------------------------------
+// Callers are verified with `#[kani::stub(crate::tools::do_divition, crate::verif_support::div_probe)]`:
+// the callee becomes an arbitrary function (every call returns an unconstrained f64) and
+// the probe records the arguments and the value handed back.  A caller's obligations then
+// read "divides exactly <l> by <r>, exactly once, and combines the quotient q as <expr(q)>",
+// which holds for ANY behaviour of the callee; together with the callee's own contract
+// (tools:do_divition_contract: do_divition(l, r) == spec_div(l, r) bit for bit) this gives the
+// formula in the property.  No float operation is ever compared with a re-computation of
+// itself on different terms, so the solver only needs congruence.
+pub(crate) static mut DIV_CALLS: usize = 0;
+pub(crate) static mut DIV_L: [f64; 4] = [0.0; 4];
+pub(crate) static mut DIV_R: [f64; 4] = [0.0; 4];
+pub(crate) static mut DIV_Q: [f64; 4] = [0.0; 4];
+
+pub(crate) fn div_probe(left: f64, right: f64) -> f64 {
+    let q: f64 = kani::any();
+    unsafe {
+        let i = DIV_CALLS;
+        if i < 4 {
+            DIV_L[i] = left;
+            DIV_R[i] = right;
+            DIV_Q[i] = q;
+        }
+        DIV_CALLS = i + 1;
+    }
+    q
+}
+/// number of do_divition calls seen by the probe (0 in a native replay, where the real callee runs)
+pub(crate) fn div_calls() -> usize { unsafe { DIV_CALLS } }
+pub(crate) fn div_call(i: usize) -> (f64, f64, f64) {
+    unsafe { (DIV_L[i], DIV_R[i], DIV_Q[i]) }
+}
+/// "the i-th division was l / r": bit-exact on both arguments
+pub(crate) fn div_was(i: usize, l: f64, r: f64) -> bool {
+    let (a, b, _) = div_call(i);
+    same_f64(a, l) && same_f64(b, r)
 }
